@@ -17,8 +17,19 @@ Section Graph.
     exists calls, align bs s1 s2 = Ok calls /\ aligned R1 R2 0 T calls /\
                   ends_nt T (map (fun p => cend (fst p)) calls).
 
+  (* the stream semantics of an overlap-window node (C09) and the class of computations / inputs on which it
+     promises a chunking of f(whole input); nothing is promised about a zero-duration chunk at the end *)
+  Variable ovl : ovl_t.
+  Variable ovl_pre : (list row -> list row) -> Z -> Z -> list row -> Prop.
+  Hypothesis ovl_ok : forall m f wt wl wr sw dt R T cs,
+    o_run m = rn -> chunking_core dt rn R 0 T cs -> ovl_pre f wl wr R ->
+    exists out, ovl m f wt wl wr sw cs = Ok out /\ chunking_core (o_dtype m) rn (f R) 0 T out.
+
   Variable T : Z.
   Variable src : Z -> list row.
+  (* the data types whose stream is known to keep no zero-duration chunk back at the end of the run: needed of
+     the inputs of two-dependency nodes, not delivered by overlap-window nodes *)
+  Variable nt : Z -> Prop.
 
   (* the computation of a node may be applied call by call *)
   Definition comp_ok (c : comp) : Prop :=
@@ -29,9 +40,10 @@ Section Graph.
     | CDown h cut => local_comp h /\ cut_ok cut
     | CPair true h _ => pair_comp equal_len h
     | CPair false h _ => pair_comp (fun _ => True) h
+    | COverlap _ _ _ _ _ => True
     end.
 
-  (* conditions on the whole-run data of the inputs of a two-dependency node *)
+  (* conditions on the whole-run data of the inputs of a two-dependency node / an overlap-window node *)
   Definition data_ok (whole : list (Z * list row)) (n : node) : Prop :=
     match n_comp n, n_deps n with
     | CPair sk _ _, [d1; d2] =>
@@ -39,6 +51,8 @@ Section Graph.
         | Some R1, Some R2 => align_pre R1 R2 /\ (sk = true -> map rt R1 = map rt R2 /\ map re R1 = map re R2)
         | _, _ => False
         end
+    | COverlap f _ wl wr _, [d] =>
+        match lookup d whole with Some R => ovl_pre f wl wr R | None => False end
     | _, _ => True
     end.
 
@@ -49,44 +63,65 @@ Section Graph.
     | _ => exists d, n_deps n = [d]
     end.
 
+  (* how `nt` propagates: one chunk per call keeps the ends of its input; two-dependency nodes need it of both
+     inputs; exhaust and two-dependency outputs always have it; overlap-window outputs are never claimed to *)
+  Definition nt_ok (n : node) : Prop :=
+    match n_comp n, n_deps n with
+    | CLocal _, [d] => nt (n_id n) -> nt d
+    | CDown _ _, [d] => nt (n_id n) -> nt d
+    | CPair _ _ _, [d1; d2] => nt d1 /\ nt d2
+    | COverlap _ _ _ _ _, _ => ~ nt (n_id n)
+    | _, _ => True
+    end.
+
   (* the invariant: every data type evaluated so far carries a tight well-formed chunking of its whole-run rows *)
   Definition env_ok (whole : list (Z * list row)) (env : list (Z * stream)) : Prop :=
     forall d, match lookup d env with
-              | Some cs => exists dt R, lookup d whole = Some R /\ chunking_of dt rn R 0 T cs
+              | Some cs => exists dt R, lookup d whole = Some R /\ chunking_core dt rn R 0 T cs /\
+                                        (nt d -> no_trailing T cs)
               | None => lookup d whole = None
               end.
 
   (* sources and stored data types: ANY tight well-formed contiguous chunking of the whole-run rows *)
   Definition given_ok (given : Z -> option stream) (whole : list (Z * list row)) (n : node) : Prop :=
     match given (n_id n) with
-    | Some cs => exists dt, chunking_of dt rn (whole_node src whole n) 0 T cs
+    | Some cs => exists dt, chunking_core dt rn (whole_node src whole n) 0 T cs /\ (nt (n_id n) -> no_trailing T cs)
     | None => n_comp n <> CSrc
     end.
 
   Lemma run_node_correct whole env n :
-    env_ok whole env -> comp_ok (n_comp n) -> arity_ok n -> data_ok whole n ->
+    env_ok whole env -> comp_ok (n_comp n) -> arity_ok n -> data_ok whole n -> nt_ok n ->
     Forall (fun d => lookup d env <> None) (n_deps n) -> n_comp n <> CSrc -> o_run (n_meta n) = rn ->
-    exists out, run_node align env n = Ok out /\
-                chunking_of (o_dtype (n_meta n)) rn (whole_node src whole n) 0 T out.
+    exists out, run_node_x ovl align env n = Ok out /\
+                chunking_core (o_dtype (n_meta n)) rn (whole_node src whole n) 0 T out /\
+                (nt (n_id n) -> no_trailing T out).
   Proof.
-    intros HE HC HA HD HL HS HRN. rewrite <- HRN. unfold run_node, whole_node, data_ok, arity_ok in *.
-    destruct (n_comp n) as [|h|f|h cut|sk h bs] eqn:EC; [first [elim HS; reflexivity | elim HS; exact EC]| | | |].
+    intros HE HC HA HD HN HL HS HRN. unfold run_node_x, whole_node, data_ok, arity_ok, nt_ok in *.
+    destruct (n_comp n) as [|h|f|h cut|sk h bs|f wt wl wr sw] eqn:EC;
+      [first [elim HS; reflexivity | elim HS; exact EC]| | | | |].
     - destruct HA as (d & HA). rewrite HA in *. inversion HL as [|? ? Hd _]; subst.
       specialize (HE d). destruct (lookup d env) as [cs|]; [|congruence].
-      destruct HE as (dt & R & -> & Hc). apply (run_local_correct _ h dt rn R 0 T cs HC Hc).
+      destruct HE as (dt & R & -> & Hc & Hnt).
+      destruct (run_local_core (n_meta n) h dt rn R 0 T cs HC Hc) as (out & E & HO & HNT).
+      exists out. rewrite HRN in HO. split; [exact E|]. split; [exact HO|]. intros H. apply HNT, Hnt, HN, H.
     - destruct HA as (d & HA). rewrite HA in *. inversion HL as [|? ? Hd _]; subst.
       specialize (HE d). destruct (lookup d env) as [cs|]; [|congruence].
-      destruct HE as (dt & R & -> & Hc). apply (run_exhaust_correct _ f dt rn R 0 T cs HC Hc).
+      destruct HE as (dt & R & -> & Hc & _).
+      destruct (run_exhaust_core (n_meta n) f dt rn R 0 T cs HC Hc) as (out & E & HO).
+      exists out. rewrite HRN in HO. apply chunking_of_core in HO as [HO1 HO2]. auto.
     - destruct HA as (d & HA). rewrite HA in *. inversion HL as [|? ? Hd _]; subst.
       specialize (HE d). destruct (lookup d env) as [cs|]; [|congruence].
-      destruct HE as (dt & R & -> & Hc). destruct HC as [HC1 HC2].
-      apply (run_down_correct _ h cut dt rn R 0 T cs HC1 HC2 Hc).
+      destruct HE as (dt & R & -> & Hc & Hnt). destruct HC as [HC1 HC2].
+      destruct (run_down_core (n_meta n) h cut dt rn R 0 T cs HC1 HC2 Hc) as (out & E & HO & HNT).
+      exists out. rewrite HRN in HO. split; [exact E|]. split; [exact HO|]. intros H. apply HNT, Hnt, HN, H.
     - destruct HA as (d1 & d2 & HA). rewrite HA in *. inversion HL as [|? ? Hd1 HL2]; subst. inversion HL2 as [|? ? Hd2 _]; subst.
       pose proof (HE d1) as H1. pose proof (HE d2) as H2.
       destruct (lookup d1 env) as [s1|]; [|congruence]. destruct (lookup d2 env) as [s2|]; [|congruence].
-      destruct H1 as (dt1 & R1 & L1 & C1). destruct H2 as (dt2 & R2 & L2 & C2).
-      rewrite L1, L2 in *. destruct HD as [HP HK].
-      destruct (align_ok bs dt1 dt2 R1 R2 T s1 s2 C1 C2 HP) as (calls & EA & AL & HNT).
+      destruct H1 as (dt1 & R1 & L1 & C1 & N1). destruct H2 as (dt2 & R2 & L2 & C2 & N2).
+      rewrite L1, L2 in *. destruct HD as [HP HK]. destruct HN as [HN1 HN2].
+      assert (C1' : chunking_of dt1 rn R1 0 T s1) by (apply chunking_of_core; auto).
+      assert (C2' : chunking_of dt2 rn R2 0 T s2) by (apply chunking_of_core; auto).
+      destruct (align_ok bs dt1 dt2 R1 R2 T s1 s2 C1' C2' HP) as (calls & EA & AL & HNT).
       pose proof AL as (Hne & HF & Ch & HR1 & HR2).
       rewrite run_pair_unfold, EA. cbn [res_bind].
       assert (HPC : exists P : calls2 -> Prop, pair_comp P h /\ P calls /\ (sk = true -> equal_len calls)).
@@ -96,10 +131,16 @@ Section Graph.
         - exists (fun _ => True). split; [exact HC|]. split; [exact I|discriminate]. }
       destruct HPC as (P & PC & HPc & HLen).
       destruct (map_pair_tiles (n_meta n) sk P h PC calls 0 T HF HLen Ch) as (out & Em & Wo & To & Cho & Ro & Uo & Lo & Mo).
-      exists out. split; [exact Em|]. split; [|split; [exact Uo|unfold no_trailing; rewrite Mo; exact HNT]].
+      exists out. split; [exact Em|]. rewrite HRN in Uo.
+      split; [|intros _; unfold no_trailing; rewrite Mo; exact HNT]. split; [|exact Uo].
       split; [|split; [|split; [|split]]]; auto.
       + intros ->. destruct calls; [congruence|discriminate].
       + rewrite Ro. symmetry. apply (pc_split P h PC R1 R2 0 T calls AL HPc).
+    - destruct HA as (d & HA). rewrite HA in *. inversion HL as [|? ? Hd _]; subst.
+      specialize (HE d). destruct (lookup d env) as [cs|]; [|congruence].
+      destruct HE as (dt & R & HLk & Hc & _). rewrite HLk in *.
+      destruct (ovl_ok (n_meta n) f wt wl wr sw dt R T cs HRN Hc HD) as (out & E & HO).
+      exists out. split; [exact E|]. split; [exact HO|]. intros H. elim (HN H).
   Qed.
 
   (* all nodes are fine along the evaluation: stated on the whole-run environments, which do not depend on any
@@ -108,34 +149,37 @@ Section Graph.
     match g with
     | [] => True
     | n :: rest =>
-        comp_ok (n_comp n) /\ arity_ok n /\ data_ok whole n /\ Forall (fun d => lookup d whole <> None) (n_deps n) /\
+        comp_ok (n_comp n) /\ arity_ok n /\ data_ok whole n /\ nt_ok n /\
+        Forall (fun d => lookup d whole <> None) (n_deps n) /\
         o_run (n_meta n) = rn /\
         given_ok given whole n /\ graph_ok given ((n_id n, whole_node src whole n) :: whole) rest
     end.
 
   Lemma env_ok_cons whole env d dt R cs :
-    env_ok whole env -> chunking_of dt rn R 0 T cs -> env_ok ((d, R) :: whole) ((d, cs) :: env).
+    env_ok whole env -> chunking_core dt rn R 0 T cs -> (nt d -> no_trailing T cs) ->
+    env_ok ((d, R) :: whole) ((d, cs) :: env).
   Proof.
-    intros HE HC k. rewrite !lookup_cons. destruct (d =? k); [exists dt, R; auto|apply HE].
+    intros HE HC HN k. rewrite !lookup_cons. destruct (d =? k) eqn:E; [|apply HE].
+    apply Z.eqb_eq in E. subst k. exists dt, R. auto.
   Qed.
 
   Theorem eval_graph_correct given : forall g whole env,
     env_ok whole env -> graph_ok given whole g ->
-    exists env', eval_graph align given env g = Ok env' /\ env_ok (eval_whole src whole g) env'.
+    exists env', eval_graph_x ovl align given env g = Ok env' /\ env_ok (eval_whole src whole g) env'.
   Proof.
     induction g as [|n g IH]; intros whole env HE HG.
     - exists env. split; [reflexivity|exact HE].
-    - destruct HG as (HC & HA & HD & HL & HRN & HGiv & HG). cbn [eval_graph eval_whole].
-      assert (HS : exists s dt, match given (n_id n) with Some cs => Ok cs | None => run_node align env n end = Ok s /\
-                                chunking_of dt rn (whole_node src whole n) 0 T s).
+    - destruct HG as (HC & HA & HD & HNo & HL & HRN & HGiv & HG). cbn [eval_graph_x eval_whole].
+      assert (HS : exists s dt, match given (n_id n) with Some cs => Ok cs | None => run_node_x ovl align env n end = Ok s /\
+                                chunking_core dt rn (whole_node src whole n) 0 T s /\ (nt (n_id n) -> no_trailing T s)).
       { unfold given_ok in HGiv. destruct (given (n_id n)) as [cs|].
-        - destruct HGiv as (dt & Hc). exists cs, dt. auto.
-        - destruct (run_node_correct whole env n HE HC HA HD) as (out & Eo & Ho); auto.
+        - destruct HGiv as (dt & Hc & Hn). exists cs, dt. auto.
+        - destruct (run_node_correct whole env n HE HC HA HD HNo) as (out & Eo & Ho & Hn); auto.
           + eapply Forall_impl; [|exact HL]. cbn. intros d Hd. specialize (HE d).
             destruct (lookup d env); [discriminate|congruence].
           + eauto. }
-      destruct HS as (s & dt & Es & Hs). rewrite Es. cbn [res_bind].
-      apply IH; [|exact HG]. apply (env_ok_cons whole env (n_id n) dt _ s HE Hs).
+      destruct HS as (s & dt & Es & Hs & Hn). rewrite Es. cbn [res_bind].
+      apply IH; [|exact HG]. apply (env_ok_cons whole env (n_id n) dt _ s HE Hs Hn).
   Qed.
 
   (* the statement of the property on the model: for every graph, every chunking of every source, every stored
@@ -143,7 +187,7 @@ Section Graph.
      exactly the rows of the whole-run evaluation, tiles the run, and every row lies inside its chunk *)
   Corollary results_chunking_independent given g target :
     graph_ok given [] g ->
-    exists env, eval_graph align given [] g = Ok env /\
+    exists env, eval_graph_x ovl align given [] g = Ok env /\
       match lookup target env with
       | Some cs => exists R, lookup target (eval_whole src [] g) = Some R /\ tiles R 0 T cs
       | None => lookup target (eval_whole src [] g) = None
@@ -151,7 +195,7 @@ Section Graph.
   Proof.
     intros HG. destruct (eval_graph_correct given g [] []) as (env & E & HE); [intros d; reflexivity|exact HG|].
     exists env. split; [exact E|]. specialize (HE target). destruct (lookup target env) as [cs|]; [|exact HE].
-    destruct HE as (dt & R & HL & HT & _). exists R. auto.
+    destruct HE as (dt & R & HL & (HT & _) & _). exists R. auto.
   Qed.
 
 End Graph.
@@ -302,18 +346,24 @@ Proof.
   - split; [repeat constructor|]. unfold no_trailing, ends_nt. cbn. repeat constructor; lia.
 Qed.
 
-Example ex_graph_ok : graph_ok (fun _ _ => True) (Some 0) 20 ex_src ex_given [] ex_graph.
+Definition no_ovl_pre : (list row -> list row) -> Z -> Z -> list row -> Prop := fun _ _ _ _ => False.
+Lemma no_ovl_ok rn : forall m f wt wl wr sw dt R T cs,
+  o_run m = rn -> chunking_core dt rn R 0 T cs -> no_ovl_pre f wl wr R ->
+  exists out, no_ovl m f wt wl wr sw cs = Ok out /\ chunking_core (o_dtype m) rn (f R) 0 T out.
+Proof. intros until cs. intros _ _ []. Qed.
+
+Example ex_graph_ok : graph_ok (fun _ _ => True) (Some 0) no_ovl_pre 20 ex_src (fun _ => True) ex_given [] ex_graph.
 Proof.
-  pose proof ex_stream_chunking as HS.
+  pose proof ex_stream_chunking as HS. apply chunking_of_core in HS.
   unfold ex_graph. cbn [graph_ok n_comp n_deps n_id n_meta comp_ok].
-  unfold given_ok, arity_ok, data_ok, ex_given. cbn [n_comp n_deps n_id n_meta].
+  unfold given_ok, arity_ok, data_ok, nt_ok, ex_given. cbn [n_comp n_deps n_id n_meta].
   repeat match goal with |- _ /\ _ => split end;
     try exact I; try discriminate; try reflexivity;
     try apply local_h_rowwise; try apply local_h_filter; try apply whole_f_exhaust; try apply pair_h_merge2;
     try apply pair_h_loop; try apply down_cut_ok;
     try (eexists; reflexivity); try (eexists; eexists; reflexivity);
     try (repeat constructor; discriminate).
-  cbn. exists 1. exact HS.
+  cbn. exists 1. split; [apply HS|intros _; apply HS].
 Qed.
 
 (* the partial theorem instantiated: alignment hypothesis discharged by align_one_ok, graph hypotheses by ex_graph_ok *)
@@ -323,4 +373,7 @@ Example ex_theorem_instance :
     | Some cs => exists R, lookup 7 (eval_whole ex_src [] ex_graph) = Some R /\ tiles R 0 20 cs
     | None => lookup 7 (eval_whole ex_src [] ex_graph) = None
     end.
-Proof. exact (results_chunking_independent align_one (fun _ _ => True) (Some 0) (align_one_ok (Some 0)) 20 ex_src ex_given ex_graph 7 ex_graph_ok). Qed.
+Proof.
+  exact (results_chunking_independent align_one (fun _ _ => True) (Some 0) (align_one_ok (Some 0))
+           no_ovl no_ovl_pre (no_ovl_ok (Some 0)) 20 ex_src (fun _ => True) ex_given ex_graph 7 ex_graph_ok).
+Qed.
